@@ -484,7 +484,11 @@ class MP4Tags(DictProxy, Tags):
 
         ilst_data += Atom.render(b"free", b"\x00" * new_padding)
 
-        resize_bytes(fileobj, length, len(ilst_data), offset)
+        try:
+            resize_bytes(fileobj, length, len(ilst_data), offset)
+        except ValueError:
+            # ilst or its padding atom claim to extend beyond the file
+            raise MP4MetadataError("invalid atom size")
         delta = len(ilst_data) - length
 
         fileobj.seek(offset)
